@@ -280,6 +280,23 @@ def lru_tolerance(ctx):
             continue
         ctx.check(in_try_handling(d, "KeyError", "Exception"), "del", db.where(d),
                   "eviction delete is not protected against KeyError: a concurrent eviction makes get_template/put_string raise KeyError", "KeyError handled")
+    # other threads insert into and delete from the dictionary without the lock: it is only ever traversed by one call of a
+    # builtin that takes a snapshot (sorted / list / tuple); any traversal from Python code can see it change size and raise RuntimeError
+    SNAP = ("sorted", "list", "tuple")
+    views = []
+    for n in walk_func(fn):
+        if isinstance(n, ast.Call) and dotted(n.func) in ("dict.values", "dict.items", "dict.keys", "self.values", "self.items", "self.keys", "dict.__iter__", "iter"):
+            if dotted(n.func) == "iter" and not (n.args and src(n.args[0]) == "self"):
+                continue
+            views.append(n)
+    for l_ in walk_func(fn):
+        if isinstance(l_, (ast.For, ast.comprehension)) and src(l_.iter) == "self":
+            views.append(l_.iter)
+    ctx.require(views, "_manage_size does not traverse the dictionary (anchor)")
+    for v_ in views:
+        par = getattr(v_, "_parent", None)
+        ok = isinstance(par, ast.Call) and dotted(par.func) in SNAP and par.args and par.args[0] is v_
+        ctx.check(ok, "snapshot", db.where(v_), "`%s` traverses the live dictionary from Python code (`%s`): another thread's insert or eviction during the traversal raises RuntimeError('dictionary changed size during iteration') out of get_template" % (src(v_), src(par)[:60] if par is not None else ""), "traversed by one snapshotting builtin call")
 
 
 def _same_branch(a, b):
